@@ -1,17 +1,71 @@
 (* C02 — property theorems.  Statements only: each is closed by [exact] of a lemma proved elsewhere. *)
-From QT Require Import Expr.Spec Expr.EvalThm Expr.Deps Expr.FuncInfo C02.GenOk Gen.FuncTable.
+From QT Require Import Expr.Spec Expr.EvalThm Expr.OrderThm Expr.Deps Expr.FuncInfo C02.GenOk C02.Run Gen.FuncTable.
 Open Scope Z_scope.
 Open Scope string_scope.
 Open Scope list_scope.
 
-(* The evaluator — eager functions through gather, AND/OR/IF/AVAILABLE/DEFAULT awaiting exactly the arguments the code
-   awaits, MIN/MAX/LUT loops, SGN as regenerated from sign.py — computes the reference semantics [sem] for every expression
-   tree and every context, provided < is a strict weak order on non-NaN values (premise [order_laws]) and no MIN/MAX/SGN
-   call receives a NaN (where the reference is silent). *)
+(* An earlier version of this file stated the headline under a hypothesis [order_laws] ("< is a strict weak order on every
+   non-NaN [pyval]").  That hypothesis is FALSE: [pyval] also contains mantissa/exponent pairs that are not canonical binary64
+   data (which no Python float is); on those SFcompare is not the numeric order.  The theorem was therefore vacuous and has
+   been removed; the refutation stays as a record, the laws are now proved on the values that exist, and the headline
+   [C02_eval_matches_reference] below has only decidable premises about the inputs. *)
+Theorem C02_order_laws_need_canonical_floats : ~ order_laws.
+Proof. exact order_laws_refuted_on_noncanonical. Qed.
+Print Assumptions C02_order_laws_need_canonical_floats.
+
+(* On the values the evaluator can meet — bool, int, every non-NaN canonical binary64 float, in all mixed combinations —
+   the four laws are theorems: > is the converse of <, < is irreflexive, transitive, and incomparability is transitive. *)
+Theorem C02_order_laws_hold : order_laws_on (fun v => good_val v = true).
+Proof. exact order_laws_good. Qed.
+Print Assumptions C02_order_laws_hold.
+
+(* ... so the evaluator computes the reference semantics with no law hypothesis: the only premise left is the decidable
+   "every value reaching a MIN / MAX / SGN call is neither NaN nor a non-canonical float". *)
+Theorem C02_eval_matches_reference_closed :
+  forall c e, sensitive_args_good c e = true -> eval sgn_int_first c e = sem c e.
+Proof. exact eval_matches_reference_closed. Qed.
+Print Assumptions C02_eval_matches_reference_closed.
+
+(* the new premise implies the old one *)
+Theorem C02_sensitive_args_good_nan_free :
+  forall c e, sensitive_args_good c e = true -> nan_sensitive_free c e = true.
+Proof. exact sensitive_args_good_nan_free. Qed.
+Print Assumptions C02_sensitive_args_good_nan_free.
+
+(* MIN / MAX over good arguments (mixed int / bool / float) are the first minimum / maximum *)
+Theorem C02_MIN_is_first_minimum_on_good_values :
+  forall m t, forallb good_val (m :: t) = true -> Val (min_loop m t) = spec_min (m :: t).
+Proof. exact min_agrees_good. Qed.
+Print Assumptions C02_MIN_is_first_minimum_on_good_values.
+
+Theorem C02_MAX_is_first_maximum_on_good_values :
+  forall m t, forallb good_val (m :: t) = true -> Val (max_loop m t) = spec_max (m :: t).
+Proof. exact max_agrees_good. Qed.
+Print Assumptions C02_MAX_is_first_maximum_on_good_values.
+
+(* Canonicity is preserved: over a context whose port values are canonical and with canonical literals, every value an
+   expression evaluates to is canonical (SFadd/SFsub/SFmul/SFdiv, float(int), int/int, fmod, round all end in the rounding
+   core, which yields valid_binary data) ... *)
+Theorem C02_eval_produces_canonical_values :
+  forall c e v, ctx_canonical c = true -> lits_canonical e = true -> eval sgn_int_first c e = Val v -> canonical_val v = true.
+Proof. exact eval_value_canonical. Qed.
+Print Assumptions C02_eval_produces_canonical_values.
+
+(* HEADLINE.  The evaluator — eager functions through gather, AND/OR/IF/AVAILABLE/DEFAULT awaiting exactly the arguments the
+   code awaits, MIN/MAX/LUT loops, SGN as regenerated from sign.py — computes the reference semantics [sem] for every
+   expression tree and every context whose port values and literals are canonical binary64 data (checked on every case of
+   the correspondence: C02.Run.noncanonical_cases, the same test by C02_inputs_test_is_the_premise), provided no NaN reaches a
+   MIN / MAX / SGN call (where the reference is silent).  No hypothesis about the order. *)
 Theorem C02_eval_matches_reference :
-  order_laws -> forall c e, nan_sensitive_free c e = true -> eval sgn_int_first c e = sem c e.
-Proof. exact eval_matches_reference_gen. Qed.
+  forall c e, ctx_canonical c = true -> lits_canonical e = true -> nan_sensitive_free c e = true ->
+    eval sgn_int_first c e = sem c e.
+Proof. exact eval_matches_reference_canonical. Qed.
 Print Assumptions C02_eval_matches_reference.
+
+Theorem C02_inputs_test_is_the_premise :
+  forall c e, C02.Run.run_ctx_canonical c && C02.Run.run_lits_canonical e = ctx_canonical c && lits_canonical e.
+Proof. exact run_canonical_same. Qed.
+Print Assumptions C02_inputs_test_is_the_premise.
 
 (* the same for MIN over integer / boolean arguments with no premise at all *)
 Theorem C02_MIN_is_first_minimum_on_integers :
@@ -121,5 +175,6 @@ Example C02_nonvacuous :
   let c := {| port_values := [("p1", Some (VInt 3))]; ports := [("p1", true)]; now_ms := 1000; self_id := None;
               self_last := None; transform_role := false |} in
   let e := Call "MIN" [PortVal "p1"; Call "ADD" [Lit (Some (VInt 1)); Lit (Some (VInt 1))]; Call "SGN" [Lit (Some (VInt (-4)))]] in
-  nan_sensitive_free c e = true /\ eval sgn_int_first c e = Val (VInt (-1)).
-Proof. vm_compute. split; reflexivity. Qed.
+  nan_sensitive_free c e = true /\ eval sgn_int_first c e = Val (VInt (-1))
+  /\ sensitive_args_good c e = true /\ ctx_canonical c = true /\ lits_canonical e = true.
+Proof. vm_compute. repeat split; reflexivity. Qed.
